@@ -2,9 +2,25 @@ package main
 
 // K-ORIGIN: value-origin terms for SSA values of one function. A term is a canonical
 // string; two values with the same term are equal on every execution (global value
-// numbering with store-to-load forwarding and class-based invalidation through
-// K-EFFECT). No solver, no path enumeration: joins with different inputs become
-// opaque terms.
+// numbering with store-to-load forwarding, struct copy/update tracking and class-based
+// invalidation through K-EFFECT). No solver, no path enumeration: joins with different
+// inputs become opaque terms.
+//
+// Memory model. A *cell* names a storage location:
+//   P.f        field f of the struct pointed to by pointer term P (or of sub-object cell P)
+//   P{}        the whole struct pointed to by P
+//   X[i]       element
+//   *(P)       non-struct pointee
+//   @pkg.g     package variable
+// A struct-valued cell may hold a term T; its fields read as proj(T,f). Updating a field
+// of a copied struct yields with(T; f=v).
+//
+// Token window. Functions of the shape of (*Parser).nextToken (a chain of field-to-field
+// copies ending in a call) are applied as a *shift* of those cells, so that
+// `p.curToken` after one advance is the same term as `p.peekToken` before it.
+// (*Parser).expectPeek is treated as a shift as well: on its error result every caller
+// returns at once (rule C18.d checks that), so the state seen by code that continues is
+// always the advanced one.
 
 import (
 	"fmt"
@@ -47,23 +63,45 @@ func (m *memState) clone() *memState {
 	return n
 }
 
+type withInfo struct {
+	base string
+	over map[string]string
+}
+
+// shiftShape describes a nextToken-like function: dst field <- src field copies (in
+// order) and the field that receives a fresh value from a call.
+type shiftShape struct {
+	copies [][2]string // {dst, src}
+	last   string
+}
+
+// testShape describes a peekTokenIs-like function: return recv.F.G == param.
+type testShape struct {
+	f, g  string
+	param int
+}
+
 // Terms holds the analysis result for one function.
 type Terms struct {
-	w       *World
-	eff     *Effects
-	fn      *ssa.Function
-	val     map[ssa.Value]string
-	memIn   map[*ssa.BasicBlock]*memState
-	memOut  map[*ssa.BasicBlock]*memState
-	loadDef map[*ssa.UnOp]ssa.Instruction // reaching def of each load (nil when merged/initial)
-	callOrd map[ssa.CallInstruction]int
+	w        *World
+	eff      *Effects
+	fn       *ssa.Function
+	val      map[ssa.Value]string
+	memIn    map[*ssa.BasicBlock]*memState
+	memOut   map[*ssa.BasicBlock]*memState
+	loadDef  map[*ssa.UnOp]ssa.Instruction
+	callOrd  map[ssa.CallInstruction]int
 	allocOrd map[*ssa.Alloc]int
-	rpo     []*ssa.BasicBlock
-	opaque  int
-	fresh   map[string]bool // terms of fresh allocations (pointer values)
+	rpo      []*ssa.BasicBlock
+	opaque   int
+	fresh    map[string]bool // pointer terms of fresh allocations
+	withs    map[string]*withInfo
 }
 
 var termCache = map[*ssa.Function]*Terms{}
+var shiftCache = map[*ssa.Function]*shiftShape{}
+var testCache = map[*ssa.Function]*testShape{}
+var purityCache = map[*ssa.Function]int{}
 
 // TermsOf computes (and caches) the terms of fn.
 func (w *World) TermsOf(fn *ssa.Function, eff *Effects) *Terms {
@@ -71,7 +109,7 @@ func (w *World) TermsOf(fn *ssa.Function, eff *Effects) *Terms {
 		return t
 	}
 	t := &Terms{w: w, eff: eff, fn: fn, val: map[ssa.Value]string{}, memIn: map[*ssa.BasicBlock]*memState{}, memOut: map[*ssa.BasicBlock]*memState{},
-		loadDef: map[*ssa.UnOp]ssa.Instruction{}, callOrd: map[ssa.CallInstruction]int{}, allocOrd: map[*ssa.Alloc]int{}, fresh: map[string]bool{}}
+		loadDef: map[*ssa.UnOp]ssa.Instruction{}, callOrd: map[ssa.CallInstruction]int{}, allocOrd: map[*ssa.Alloc]int{}, fresh: map[string]bool{}, withs: map[string]*withInfo{}}
 	t.number()
 	t.run()
 	termCache[fn] = t
@@ -80,13 +118,12 @@ func (w *World) TermsOf(fn *ssa.Function, eff *Effects) *Terms {
 
 // number assigns stable ordinals: calls per callee name, allocs per type, by source position.
 func (t *Terms) number() {
-	type ck struct{ name string }
 	callsBy := map[string][]ssa.CallInstruction{}
 	allocsBy := map[string][]*ssa.Alloc{}
 	instrs(t.fn, func(in ssa.Instruction) {
 		switch x := in.(type) {
 		case ssa.CallInstruction:
-			n := t.calleeShort(x)
+			n := t.calleeKey(x)
 			callsBy[n] = append(callsBy[n], x)
 		case *ssa.Alloc:
 			n := shortType(deref(x.Type()))
@@ -107,13 +144,21 @@ func (t *Terms) number() {
 	}
 }
 
-func (t *Terms) calleeShort(ci ssa.CallInstruction) string {
+func (t *Terms) calleeKey(ci ssa.CallInstruction) string {
 	n := calleeName(ci)
 	if n == "" {
-		return "dyn:" + t.Term(ci.Common().Value)
+		return "dyn"
 	}
 	n = strings.ReplaceAll(n, t.w.ModPath+"/", "")
 	n = strings.ReplaceAll(n, t.w.ModPath+".", "main.")
+	return n
+}
+
+func (t *Terms) calleeShort(ci ssa.CallInstruction) string {
+	n := t.calleeKey(ci)
+	if n == "dyn" {
+		return "dyn:" + t.Term(ci.Common().Value)
+	}
 	return n
 }
 
@@ -148,15 +193,13 @@ func (t *Terms) run() {
 		return
 	}
 	t.computeRPO()
-	for i, p := range t.fn.Params {
-		_ = i
+	for _, p := range t.fn.Params {
 		t.val[p] = "$" + p.Name()
 	}
 	for _, fv := range t.fn.FreeVars {
 		t.val[fv] = "^" + fv.Name()
 	}
 	for _, b := range t.rpo {
-		// merge forward predecessors
 		var in *memState
 		var preds []*memState
 		for _, p := range b.Preds {
@@ -183,6 +226,32 @@ func (t *Terms) run() {
 
 func (t *Terms) merge(b *ssa.BasicBlock, preds []*memState) *memState {
 	out := newMem()
+	for _, p := range preds {
+		for k, c := range p.cellCls {
+			out.cellCls[k] = c
+		}
+	}
+	ckeys := map[string]bool{}
+	for _, p := range preds {
+		for k := range p.classV {
+			ckeys[k] = true
+		}
+	}
+	for k := range ckeys {
+		v0, ok0 := preds[0].classV[k]
+		same := true
+		for _, p := range preds[1:] {
+			v, ok := p.classV[k]
+			if v != v0 || ok != ok0 {
+				same = false
+			}
+		}
+		if same {
+			out.classV[k] = v0
+		} else {
+			out.classV[k] = fmt.Sprintf("j%d", b.Index)
+		}
+	}
 	keys := map[string]bool{}
 	for _, p := range preds {
 		for k := range p.cells {
@@ -195,8 +264,7 @@ func (t *Terms) merge(b *ssa.BasicBlock, preds []*memState) *memState {
 		for i, p := range preds {
 			e, ok := p.cells[k]
 			if !ok {
-				// initial content on that path
-				e = memEntry{term: t.defaultContent(k, p), def: nil}
+				e = memEntry{term: t.lookup(k, p), def: nil}
 			}
 			if i == 0 {
 				first = e
@@ -211,31 +279,6 @@ func (t *Terms) merge(b *ssa.BasicBlock, preds []*memState) *memState {
 		} else {
 			out.cells[k] = memEntry{term: fmt.Sprintf("mu(b%d,%s)", b.Index, k), def: nil}
 		}
-		for _, p := range preds {
-			if c, ok := p.cellCls[k]; ok {
-				out.cellCls[k] = c
-			}
-		}
-	}
-	ckeys := map[string]bool{}
-	for _, p := range preds {
-		for k := range p.classV {
-			ckeys[k] = true
-		}
-	}
-	for k := range ckeys {
-		v0 := preds[0].classV[k]
-		same := true
-		for _, p := range preds[1:] {
-			if p.classV[k] != v0 {
-				same = false
-			}
-		}
-		if same {
-			out.classV[k] = v0
-		} else {
-			out.classV[k] = fmt.Sprintf("j%d", b.Index)
-		}
 	}
 	return out
 }
@@ -248,15 +291,17 @@ func (t *Terms) invalidateLoop(h *ssa.BasicBlock, m *memState) {
 		for _, in := range b.Instrs {
 			switch x := in.(type) {
 			case *ssa.Store:
-				if a, ok := rootValue(x.Addr).(*ssa.Alloc); ok && body[a.Block()] {
-					if _, direct := x.Addr.(*ssa.Alloc); !direct {
+				root := rootValue(x.Addr)
+				if a, ok := root.(*ssa.Alloc); ok {
+					if body[a.Block()] {
 						continue // object allocated inside the loop: fresh every iteration
 					}
-				}
-				if a, ok := x.Addr.(*ssa.Alloc); ok {
-					// local variable cell
-					cell := "*(" + t.allocName(a) + ")"
-					m.cells[cell] = memEntry{term: fmt.Sprintf("mu(%s,%s)", tag, cell)}
+					// local variable / object allocated before the loop, updated in it
+					if cell, ok := t.invariantCell(x.Addr); ok {
+						t.forgetCell(m, cell, tag)
+					} else {
+						t.forgetPrefix(m, t.Term(a), tag)
+					}
 					continue
 				}
 				if p, ok := x.Addr.(*ssa.Parameter); ok {
@@ -264,54 +309,92 @@ func (t *Terms) invalidateLoop(h *ssa.BasicBlock, m *memState) {
 					m.cells[cell] = memEntry{term: fmt.Sprintf("mu(%s,%s)", tag, cell)}
 					continue
 				}
-				t.invalidateClass(m, storeClass(x.Addr), tag, "")
+				t.invalidateClass(m, storeClass(x.Addr), tag)
 			case *ssa.MapUpdate:
-				t.invalidateClass(m, "map:"+shortType(x.Map.Type()), tag, "")
+				t.invalidateClass(m, "map:"+shortType(x.Map.Type()), tag)
 			case ssa.CallInstruction:
-				t.invalidateForCall(x, m, tag)
+				if !t.isQuietCall(x) {
+					t.invalidateForCall(x, m, tag)
+				}
 			}
 		}
 	}
 }
 
-func (t *Terms) invalidateClass(m *memState, cls, tag, exceptBase string) {
+// invariantCell names the cell of an address made only of field selections on an
+// allocation or parameter (so the name does not depend on loop-variant values).
+func (t *Terms) invariantCell(addr ssa.Value) (string, bool) {
+	switch x := addr.(type) {
+	case *ssa.FieldAddr:
+		switch y := x.X.(type) {
+		case *ssa.FieldAddr:
+			b, ok := t.invariantCell(y)
+			return b + "." + fieldName(x.X.Type(), x.Field), ok
+		case *ssa.Alloc:
+			return t.Term(y) + "." + fieldName(x.X.Type(), x.Field), true
+		case *ssa.Parameter:
+			return t.Term(y) + "." + fieldName(x.X.Type(), x.Field), true
+		}
+		return "", false
+	case *ssa.Alloc:
+		c, _ := t.cellOf(x)
+		return c, true
+	}
+	return "", false
+}
+
+// forgetCell makes one cell (and its sub-cells) unknown.
+func (t *Terms) forgetCell(m *memState, cell, tag string) {
+	m.cells[cell] = memEntry{term: fmt.Sprintf("mu(%s,%s)", tag, cell)}
+	prefix := strings.TrimSuffix(cell, "{}") + "."
+	for c := range m.cells {
+		if strings.HasPrefix(c, prefix) {
+			delete(m.cells, c)
+		}
+	}
+}
+
+// forgetPrefix makes the object named by pointer term base (and its sub-cells) unknown.
+func (t *Terms) forgetPrefix(m *memState, base, tag string) {
+	for c := range m.cells {
+		if c == base+"{}" || c == "*("+base+")" || strings.HasPrefix(c, base+".") || strings.HasPrefix(c, base+"[") {
+			m.cells[c] = memEntry{term: fmt.Sprintf("mu(%s,%s)", tag, c)}
+		}
+	}
+	m.classV["base:"+base] = tag
+}
+
+func (t *Terms) invalidateClass(m *memState, cls, tag string) {
 	m.classV[cls] = tag
 	for cell, c := range m.cellCls {
 		if c != cls {
 			continue
 		}
-		base := cellBase(cell)
-		if exceptBase != "" && base == exceptBase {
-			continue
+		if _, has := m.cells[cell]; has {
+			m.cells[cell] = memEntry{term: cell + "!" + tag}
 		}
-		if t.fresh[base] && exceptBase != "*" {
-			// distinct fresh allocation cannot alias a different base
-			if exceptBase != "" {
-				continue
+		for sub := range m.cells {
+			if strings.HasPrefix(sub, cell+".") {
+				delete(m.cells, sub)
 			}
 		}
-		m.cells[cell] = memEntry{term: cell + "!" + tag}
 	}
-}
-
-func cellBase(cell string) string {
-	if i := strings.LastIndex(cell, "."); i > 0 && !strings.HasSuffix(cell, ")") && !strings.HasSuffix(cell, "]") {
-		return cell[:i]
-	}
-	return cell
 }
 
 func (t *Terms) invalidateForCall(ci ssa.CallInstruction, m *memState, tag string) {
 	c := ci.Common()
 	targets := t.eff.targets(ci)
 	static := c.StaticCallee()
-	if len(targets) == 0 && static != nil && !t.w.InRepo(static) {
+	if static != nil && !t.w.InRepo(static) {
 		// library call: may write through pointer arguments
 		for _, a := range c.Args {
 			if _, ok := a.Type().Underlying().(*types.Pointer); ok {
-				t.invalidateBase(m, t.Term(a), tag)
+				t.forgetPrefix(m, t.Term(a), tag)
 			}
 		}
+		return
+	}
+	if c.IsInvoke() && len(targets) == 0 {
 		return
 	}
 	for _, g := range targets {
@@ -319,16 +402,15 @@ func (t *Terms) invalidateForCall(ci ssa.CallInstruction, m *memState, tag strin
 			if isParamClass(k) {
 				pi := paramClassIndex(k)
 				if pi < len(c.Args) {
-					t.invalidateBase(m, t.Term(c.Args[pi]), tag)
+					t.forgetPrefix(m, t.Term(c.Args[pi]), tag)
 				}
 				continue
 			}
-			t.invalidateClass(m, k, tag, "")
+			t.invalidateClass(m, k, tag)
 		}
 	}
 	if static == nil && !c.IsInvoke() {
 		if _, isB := c.Value.(*ssa.Builtin); !isB && len(targets) == 0 {
-			// unknown dynamic call: forget everything
 			for cell := range m.cells {
 				m.cells[cell] = memEntry{term: cell + "!" + tag}
 			}
@@ -336,85 +418,274 @@ func (t *Terms) invalidateForCall(ci ssa.CallInstruction, m *memState, tag strin
 	}
 }
 
-// invalidateBase forgets *(P) and every P.f cell.
-func (t *Terms) invalidateBase(m *memState, base, tag string) {
-	cell := "*(" + base + ")"
-	m.cells[cell] = memEntry{term: cell + "!" + tag}
-	for c := range m.cells {
-		if strings.HasPrefix(c, base+".") {
-			m.cells[c] = memEntry{term: c + "!" + tag}
-		}
-	}
-	m.classV["base:"+base] = tag
-}
-
 func (t *Terms) allocName(a *ssa.Alloc) string {
 	return fmt.Sprintf("new#%d<%s>", t.allocOrd[a], shortType(deref(a.Type())))
 }
 
-// defaultContent is the content of a cell that has not been stored to on this path.
-func (t *Terms) defaultContent(cell string, m *memState) string {
-	base := cellBase(cell)
-	if strings.HasPrefix(cell, "*(new#") || (t.fresh[base] && base != cell) {
+func isStructType(ty types.Type) bool {
+	_, ok := ty.Underlying().(*types.Struct)
+	return ok
+}
+
+type cellLevel struct{ cell, cls string }
+
+// cellOf names the memory cell addressed by addr; levels lists the enclosing cells
+// (outermost first) with their classes, the last one being the cell itself.
+func (t *Terms) cellOf(addr ssa.Value) (cell string, levels []cellLevel) {
+	switch x := addr.(type) {
+	case *ssa.FieldAddr:
+		var base string
+		var up []cellLevel
+		switch x.X.(type) {
+		case *ssa.FieldAddr, *ssa.IndexAddr:
+			base, up = t.cellOf(x.X)
+		default:
+			base = t.Term(x.X)
+		}
+		cell = base + "." + fieldName(x.X.Type(), x.Field)
+		return cell, append(up, cellLevel{cell, storeClass(addr)})
+	case *ssa.IndexAddr:
+		var base string
+		var up []cellLevel
+		switch x.X.(type) {
+		case *ssa.FieldAddr, *ssa.IndexAddr:
+			base, up = t.cellOf(x.X)
+		default:
+			base = t.Term(x.X)
+		}
+		cell = base + "[" + t.Term(x.Index) + "]"
+		return cell, append(up, cellLevel{cell, storeClass(addr)})
+	case *ssa.Alloc:
+		if isStructType(deref(x.Type())) {
+			cell = t.Term(x) + "{}"
+		} else {
+			cell = "*(" + t.Term(x) + ")"
+		}
+		return cell, []cellLevel{{cell, ""}}
+	case *ssa.Global:
+		cell = "@" + x.Pkg.Pkg.Name() + "." + x.Name()
+		return cell, []cellLevel{{cell, storeClass(addr)}}
+	default:
+		if isStructType(deref(addr.Type())) {
+			cell = t.Term(addr) + "{}"
+		} else {
+			cell = "*(" + t.Term(addr) + ")"
+		}
+		return cell, []cellLevel{{cell, storeClass(addr)}}
+	}
+}
+
+// splitCell splits "B.f" into (B, f); ok=false for non-field cells.
+func splitCell(cell string) (string, string, bool) {
+	if strings.HasSuffix(cell, "{}") || strings.HasSuffix(cell, ")") || strings.HasSuffix(cell, "]") {
+		return "", "", false
+	}
+	// find last '.' at bracket depth 0 and outside quotes
+	depth := 0
+	inStr := false
+	last := -1
+	for i := 0; i < len(cell); i++ {
+		ch := cell[i]
+		if ch == '"' && (i == 0 || cell[i-1] != '\\') {
+			inStr = !inStr
+		}
+		if inStr {
+			continue
+		}
+		switch ch {
+		case '(', '[', '<', '{':
+			depth++
+		case ')', ']', '>', '}':
+			depth--
+		case '.':
+			if depth == 0 {
+				last = i
+			}
+		}
+	}
+	if last <= 0 {
+		return "", "", false
+	}
+	return cell[:last], cell[last+1:], true
+}
+
+// proj projects field f out of a struct term.
+func (t *Terms) proj(term, f string) string {
+	if term == "zero" {
 		return "zero"
 	}
-	if cls, ok := m.cellCls[cell]; ok {
+	if wi, ok := t.withs[term]; ok {
+		if v, ok := wi.over[f]; ok {
+			return v
+		}
+		return t.proj(wi.base, f)
+	}
+	return term + "." + f
+}
+
+func (t *Terms) mkWith(base string, over map[string]string) string {
+	if wi, ok := t.withs[base]; ok {
+		merged := map[string]string{}
+		for k, v := range wi.over {
+			merged[k] = v
+		}
+		for k, v := range over {
+			merged[k] = v
+		}
+		base, over = wi.base, merged
+	}
+	var ks []string
+	for k := range over {
+		ks = append(ks, k)
+	}
+	sort.Strings(ks)
+	var parts []string
+	for _, k := range ks {
+		parts = append(parts, k+"="+over[k])
+	}
+	s := "with(" + base + "; " + strings.Join(parts, "; ") + ")"
+	t.withs[s] = &withInfo{base: base, over: over}
+	return s
+}
+
+// initial is the content of a cell never written on this path (with invalidation versions).
+func (t *Terms) initial(cell string, m *memState) string {
+	if strings.HasSuffix(cell, "{}") {
+		base := strings.TrimSuffix(cell, "{}")
+		if t.fresh[base] {
+			return "zero"
+		}
+		if v, ok := m.classV["base:"+base]; ok {
+			return "*" + base + "!" + v
+		}
+		return "*" + base
+	}
+	if strings.HasPrefix(cell, "*(") {
+		base := strings.TrimSuffix(strings.TrimPrefix(cell, "*("), ")")
+		if t.fresh[base] {
+			return "zero"
+		}
+		if v, ok := m.classV["base:"+base]; ok {
+			return cell + "!" + v
+		}
+		return cell
+	}
+	if b, _, ok := splitCell(cell); ok {
+		if t.fresh[b] {
+			return "zero"
+		}
+		if v, ok := m.classV["base:"+b]; ok {
+			return cell + "!" + v
+		}
+	}
+	if cls, ok := m.cellCls[cell]; ok && cls != "" {
 		if v, ok := m.classV[cls]; ok {
 			return cell + "!" + v
 		}
 	}
-	if v, ok := m.classV["base:"+base]; ok {
-		return cell + "!" + v
-	}
 	return cell
 }
 
-// cellOf names the memory cell addressed by addr and its class.
-func (t *Terms) cellOf(addr ssa.Value) (cell, cls string) {
-	switch x := addr.(type) {
-	case *ssa.FieldAddr:
-		return t.Term(x.X) + "." + fieldName(x.X.Type(), x.Field), storeClass(addr)
-	case *ssa.IndexAddr:
-		return t.Term(x.X) + "[" + t.Term(x.Index) + "]", storeClass(addr)
-	case *ssa.Alloc:
-		return "*(" + t.allocName(x) + ")", ""
-	case *ssa.Global:
-		return "@" + x.Pkg.Pkg.Name() + "." + x.Name(), storeClass(addr)
-	default:
-		return "*(" + t.Term(addr) + ")", storeClass(addr)
+// lookup returns the content of a cell in state m (following struct prefixes).
+func (t *Terms) lookup(cell string, m *memState) string {
+	if e, ok := m.cells[cell]; ok {
+		return e.term
 	}
+	if b, f, ok := splitCell(cell); ok {
+		// whole-struct candidates: sub-object cell b, or object b{}
+		if e, ok := m.cells[b]; ok {
+			return t.proj(e.term, f)
+		}
+		if e, ok := m.cells[b+"{}"]; ok {
+			return t.proj(e.term, f)
+		}
+		// an enclosing cell further up?
+		if _, _, ok2 := splitCell(b); ok2 {
+			if _, known := m.cellCls[b]; known {
+				up := t.lookup(b, m)
+				if up != b {
+					return t.proj(up, f)
+				}
+			}
+		}
+	}
+	return t.initial(cell, m)
 }
 
-func (t *Terms) load(addr ssa.Value, m *memState) (string, ssa.Instruction) {
-	cell, cls := t.cellOf(addr)
-	if cls != "" {
-		m.cellCls[cell] = cls
-	}
+// wholeLoad returns the content of a struct-valued cell including field overrides.
+func (t *Terms) wholeLoad(cell string, m *memState) string {
+	baseTerm := ""
 	if e, ok := m.cells[cell]; ok {
-		return e.term, e.def
+		baseTerm = e.term
+	} else {
+		baseTerm = t.lookup(cell, m)
 	}
-	return t.defaultContent(cell, m), nil
+	prefix := strings.TrimSuffix(cell, "{}") + "."
+	over := map[string]string{}
+	for c, e := range m.cells {
+		if strings.HasPrefix(c, prefix) {
+			rest := c[len(prefix):]
+			if _, _, nested := splitCell(c); nested && !strings.ContainsAny(rest, ".[") {
+				over[rest] = e.term
+			} else {
+				over[rest] = e.term
+			}
+		}
+	}
+	if len(over) == 0 {
+		return baseTerm
+	}
+	return t.mkWith(baseTerm, over)
+}
+
+func (t *Terms) load(u *ssa.UnOp, m *memState) (string, ssa.Instruction) {
+	cell, levels := t.cellOf(u.X)
+	for _, l := range levels {
+		if l.cls != "" {
+			m.cellCls[l.cell] = l.cls
+		}
+	}
+	var def ssa.Instruction
+	if e, ok := m.cells[cell]; ok {
+		def = e.def
+	}
+	if isStructType(u.Type()) {
+		return t.wholeLoad(cell, m), def
+	}
+	return t.lookup(cell, m), def
 }
 
 func (t *Terms) store(st *ssa.Store, m *memState) {
-	cell, cls := t.cellOf(st.Addr)
-	if cls != "" {
-		m.cellCls[cell] = cls
-		// may-alias: other cells of the same class with a different, non-fresh base
-		base := cellBase(cell)
+	cell, levels := t.cellOf(st.Addr)
+	for _, l := range levels {
+		if l.cls != "" {
+			m.cellCls[l.cell] = l.cls
+		}
+	}
+	cls := levels[len(levels)-1].cls
+	root := rootValue(st.Addr)
+	_, rootFresh := root.(*ssa.Alloc)
+	if cls != "" && !rootFresh {
+		// may-alias: other cells of the same class reached through a different, non-fresh base
 		for c, k := range m.cellCls {
 			if k != cls || c == cell {
 				continue
 			}
-			ob := cellBase(c)
-			if t.fresh[ob] || t.fresh[base] {
+			b, _, ok := splitCell(c)
+			if ok && t.fresh[b] {
 				continue
 			}
-			m.cells[c] = memEntry{term: c + "!" + t.newOpaque("st")}
+			if _, has := m.cells[c]; has {
+				m.cells[c] = memEntry{term: c + "!" + t.newOpaque("st")}
+			}
 		}
-		if !t.fresh[base] {
-			// unknown cells of this class become versioned too
-			m.classV[cls] = t.newOpaque("st")
+		m.classV[cls] = t.newOpaque("st")
+	}
+	// drop sub-cells of the stored cell
+	prefix := strings.TrimSuffix(cell, "{}") + "."
+	for c := range m.cells {
+		if strings.HasPrefix(c, prefix) {
+			delete(m.cells, c)
 		}
 	}
 	m.cells[cell] = memEntry{term: t.Term(st.Val), def: st}
@@ -428,27 +699,187 @@ func (t *Terms) step(in ssa.Instruction, m *memState) {
 		t.store(x, m)
 		return
 	case *ssa.MapUpdate:
-		t.invalidateClass(m, "map:"+shortType(x.Map.Type()), t.newOpaque("mu"), "")
+		t.invalidateClass(m, "map:"+shortType(x.Map.Type()), t.newOpaque("mu"))
 		return
 	case *ssa.UnOp:
 		if x.Op == token.MUL {
-			term, def := t.load(x.X, m)
+			term, def := t.load(x, m)
 			t.val[x] = term
 			t.loadDef[x] = def
 			return
 		}
 	case ssa.CallInstruction:
-		if v, ok := in.(ssa.Value); ok {
-			t.val[v] = t.callTerm(x)
-		}
-		if !t.isPureCall(x) {
-			t.invalidateForCall(x, m, fmt.Sprintf("c%s@%d", shortCallee(t.calleeShort(x)), t.callOrd[x]))
-		}
+		t.stepCall(x, m)
 		return
 	}
 	if v, ok := in.(ssa.Value); ok {
 		t.val[v] = t.compute(v)
 	}
+}
+
+func (t *Terms) stepCall(x ssa.CallInstruction, m *memState) {
+	v, isVal := x.(ssa.Value)
+	f := callee(x)
+	tag := fmt.Sprintf("c%s@%d", shortCallee(t.calleeKey(x)), t.callOrd[x])
+	if f != nil && t.w.InRepo(f) {
+		if ts := t.testShapeOf(f); ts != nil && isVal && len(x.Common().Args) > ts.param {
+			recv := t.Term(x.Common().Args[0])
+			cell := recv + "." + ts.f + "." + ts.g
+			m.cellCls[recv+"."+ts.f] = t.recvClass(f, ts.f)
+			t.val[v] = "(" + t.lookup(cell, m) + " == " + t.Term(x.Common().Args[ts.param]) + ")"
+			return
+		}
+		sh := t.shiftShapeOf(f)
+		if sh == nil && isExpectPeek(t.w, f) {
+			if nt := t.w.Method("parser", "Parser", "nextToken"); nt != nil {
+				sh = t.shiftShapeOf(nt)
+			}
+		}
+		if sh != nil {
+			if isVal {
+				t.val[v] = t.callTerm(x)
+			}
+			t.applyShift(sh, f, t.Term(x.Common().Args[0]), m, tag)
+			return
+		}
+	}
+	if isVal {
+		t.val[v] = t.callTerm(x)
+	}
+	if !t.isQuietCall(x) {
+		t.invalidateForCall(x, m, tag)
+	}
+}
+
+func isExpectPeek(w *World, f *ssa.Function) bool {
+	return f == w.Method("parser", "Parser", "expectPeek")
+}
+
+func (t *Terms) recvClass(f *ssa.Function, field string) string {
+	if len(f.Params) == 0 {
+		return ""
+	}
+	n := namedOf(f.Params[0].Type())
+	if n == nil {
+		return ""
+	}
+	return n.Obj().Pkg().Name() + "." + n.Obj().Name() + "." + field
+}
+
+func (t *Terms) applyShift(sh *shiftShape, f *ssa.Function, recv string, m *memState, tag string) {
+	vals := map[string]string{}
+	for _, c := range sh.copies {
+		cell := recv + "." + c[1]
+		m.cellCls[cell] = t.recvClass(f, c[1])
+		vals[c[0]] = t.wholeLoad(cell, m)
+	}
+	fields := map[string]bool{sh.last: true}
+	for _, c := range sh.copies {
+		fields[c[0]] = true
+		fields[c[1]] = true
+	}
+	for fld := range fields {
+		prefix := recv + "." + fld + "."
+		for c := range m.cells {
+			if strings.HasPrefix(c, prefix) {
+				delete(m.cells, c)
+			}
+		}
+	}
+	for _, c := range sh.copies {
+		cell := recv + "." + c[0]
+		m.cellCls[cell] = t.recvClass(f, c[0])
+		m.cells[cell] = memEntry{term: vals[c[0]]}
+	}
+	cell := recv + "." + sh.last
+	m.cellCls[cell] = t.recvClass(f, sh.last)
+	m.cells[cell] = memEntry{term: "lex!" + tag}
+}
+
+// shiftShapeOf recognises `recv.A = recv.B; recv.B = recv.C; ...; recv.Z = call()`.
+func (t *Terms) shiftShapeOf(f *ssa.Function) *shiftShape {
+	if s, ok := shiftCache[f]; ok {
+		return s
+	}
+	shiftCache[f] = nil
+	if len(f.Blocks) != 1 || len(f.Params) != 1 {
+		return nil
+	}
+	recv := f.Params[0]
+	sh := &shiftShape{}
+	for _, in := range f.Blocks[0].Instrs {
+		switch x := in.(type) {
+		case *ssa.Store:
+			fa, ok := x.Addr.(*ssa.FieldAddr)
+			if !ok || fa.X != recv {
+				return nil
+			}
+			dst := fieldName(recv.Type(), fa.Field)
+			switch v := x.Val.(type) {
+			case *ssa.UnOp:
+				sfa, ok := v.X.(*ssa.FieldAddr)
+				if !ok || sfa.X != recv {
+					return nil
+				}
+				sh.copies = append(sh.copies, [2]string{dst, fieldName(recv.Type(), sfa.Field)})
+			case *ssa.Call:
+				if sh.last != "" {
+					return nil
+				}
+				sh.last = dst
+			default:
+				return nil
+			}
+		case *ssa.FieldAddr, *ssa.UnOp, *ssa.Call, *ssa.Return:
+		default:
+			return nil
+		}
+	}
+	if len(sh.copies) < 2 || sh.last == "" {
+		return nil
+	}
+	shiftCache[f] = sh
+	return sh
+}
+
+// testShapeOf recognises `return recv.F.G == param`.
+func (t *Terms) testShapeOf(f *ssa.Function) *testShape {
+	if s, ok := testCache[f]; ok {
+		return s
+	}
+	testCache[f] = nil
+	if len(f.Blocks) != 1 || len(f.Params) != 2 {
+		return nil
+	}
+	ins := f.Blocks[0].Instrs
+	ret, ok := ins[len(ins)-1].(*ssa.Return)
+	if !ok || len(ret.Results) != 1 {
+		return nil
+	}
+	bo, ok := ret.Results[0].(*ssa.BinOp)
+	if !ok || bo.Op != token.EQL {
+		return nil
+	}
+	ld, ok := bo.X.(*ssa.UnOp)
+	par := bo.Y
+	if !ok {
+		ld, ok = bo.Y.(*ssa.UnOp)
+		par = bo.X
+	}
+	if !ok || ld.Op != token.MUL || par != ssa.Value(f.Params[1]) {
+		return nil
+	}
+	inner, ok := ld.X.(*ssa.FieldAddr)
+	if !ok {
+		return nil
+	}
+	outer, ok := inner.X.(*ssa.FieldAddr)
+	if !ok || outer.X != ssa.Value(f.Params[0]) {
+		return nil
+	}
+	ts := &testShape{f: fieldName(outer.X.Type(), outer.Field), g: fieldName(inner.X.Type(), inner.Field), param: 1}
+	testCache[f] = ts
+	return ts
 }
 
 func shortCallee(s string) string {
@@ -464,65 +895,121 @@ var pureStd = map[string]bool{
 	"strconv.ParseInt": true, "strconv.Itoa": true, "unicode.IsDigit": true, "unicode.IsLetter": true, "unicode.IsSpace": true,
 	"unicode/utf8.DecodeRuneInString": true, "builtin:len": true, "builtin:cap": true, "builtin:append": true,
 	"strings.TrimSpace": true, "strings.Contains": true, "strings.TrimRight": true, "strings.TrimSuffix": true, "strings.TrimPrefix": true,
+	"strings.ToLower": true, "strings.ToUpper": true, "strings.EqualFold": true, "strings.Index": true, "strings.Repeat": true,
+	"sort.Strings": false,
+}
+
+var readerStd = map[string]bool{
 	"(*strings.Builder).String": true, "(*strings.Builder).Len": true,
 }
 
-// isPureCall: the call writes nothing the analysis tracks and its result depends only on
-// its arguments (and, for the Builder readers, on the builder cell which is versioned).
-func (t *Terms) isPureCall(ci ssa.CallInstruction) bool {
+const (
+	purImpure = iota + 1
+	purReadOnly
+	purArgOnly
+)
+
+// purity classifies a repo function: argOnly (result determined by arguments; may read
+// package variables, which rule C17.b shows are never written after init), readOnly
+// (writes nothing but reads memory through its parameters), impure.
+func (t *Terms) purity(f *ssa.Function) int {
+	if p, ok := purityCache[f]; ok {
+		return p
+	}
+	purityCache[f] = purImpure // recursion guard
+	p := purArgOnly
+	if len(t.eff.Writes(f)) > 0 {
+		purityCache[f] = purImpure
+		return purImpure
+	}
+	instrs(f, func(in ssa.Instruction) {
+		switch x := in.(type) {
+		case *ssa.UnOp:
+			if x.Op == token.MUL {
+				root := rootValue(x.X)
+				switch root.(type) {
+				case *ssa.Alloc, *ssa.Global:
+				default:
+					if p > purReadOnly {
+						p = purReadOnly
+					}
+				}
+			}
+		case *ssa.Lookup, *ssa.Index:
+			// reads of map/slice contents passed in
+			if p > purReadOnly {
+				if _, isGlobalLoad := rootValue(x.(ssa.Value)).(*ssa.Global); !isGlobalLoad {
+					// lookups in maps loaded from package variables stay argOnly; others readOnly
+					if lk, ok := x.(*ssa.Lookup); ok {
+						if u, ok := lk.X.(*ssa.UnOp); ok {
+							if _, ok := u.X.(*ssa.Global); ok {
+								return
+							}
+						}
+						if _, isStr := lk.X.Type().Underlying().(*types.Basic); isStr {
+							return
+						}
+					}
+					p = purReadOnly
+				}
+			}
+		case ssa.CallInstruction:
+			n := calleeName(x)
+			if pureStd[n] {
+				return
+			}
+			if readerStd[n] {
+				if p > purReadOnly {
+					p = purReadOnly
+				}
+				return
+			}
+			if g := callee(x); g != nil && t.w.InRepo(g) {
+				q := t.purity(g)
+				if q < p {
+					p = q
+				}
+				return
+			}
+			if strings.HasPrefix(n, "builtin:") {
+				return
+			}
+			p = purImpure
+		}
+	})
+	purityCache[f] = p
+	return p
+}
+
+// isQuietCall: the call writes nothing the analysis tracks.
+func (t *Terms) isQuietCall(ci ssa.CallInstruction) bool {
 	n := calleeName(ci)
-	if pureStd[n] {
+	if pureStd[n] || readerStd[n] {
 		return true
 	}
 	if f := callee(ci); f != nil && t.w.InRepo(f) {
-		return len(t.eff.Writes(f)) == 0 && t.readsNoMutable(f)
+		return t.purity(f) >= purReadOnly
 	}
 	return false
-}
-
-// readsNoMutable: approximates "result depends only on arguments": the function (and
-// callees) performs no load from a global and calls nothing impure outside the repo.
-func (t *Terms) readsNoMutable(f *ssa.Function) bool {
-	ok := true
-	seen := map[*ssa.Function]bool{}
-	var visit func(g *ssa.Function)
-	visit = func(g *ssa.Function) {
-		if seen[g] || !ok {
-			return
-		}
-		seen[g] = true
-		for _, ci := range callsIn(g) {
-			n := calleeName(ci)
-			if pureStd[n] {
-				continue
-			}
-			if h := callee(ci); h != nil && t.w.InRepo(h) {
-				visit(h)
-				continue
-			}
-			if strings.HasPrefix(n, "builtin:") {
-				continue
-			}
-			ok = false
-		}
-	}
-	visit(f)
-	return ok
 }
 
 func (t *Terms) callTerm(ci ssa.CallInstruction) string {
 	c := ci.Common()
 	name := t.calleeShort(ci)
-	if t.isPureCall(ci) {
-		var as []string
-		for _, a := range c.Args {
-			as = append(as, t.Term(a))
-		}
-		if name == "(*strings.Builder).String" || name == "(*strings.Builder).Len" {
-			// depends on builder content: version it by call ordinal
-			return fmt.Sprintf("%s(%s)@%d", name, strings.Join(as, ","), t.callOrd[ci])
-		}
+	n := calleeName(ci)
+	argOnly := pureStd[n]
+	if f := callee(ci); f != nil && t.w.InRepo(f) {
+		argOnly = t.purity(f) == purArgOnly
+	}
+	var as []string
+	for _, a := range c.Args {
+		as = append(as, t.Term(a))
+	}
+	if argOnly {
 		return name + "(" + strings.Join(as, ",") + ")"
+	}
+	if f := callee(ci); f != nil && t.w.InRepo(f) && t.purity(f) == purReadOnly {
+		return fmt.Sprintf("%s(%s)@%d", name, strings.Join(as, ","), t.callOrd[ci])
 	}
 	return fmt.Sprintf("%s@%d", name, t.callOrd[ci])
 }
@@ -541,7 +1028,7 @@ func (t *Terms) compute(v ssa.Value) string {
 	switch x := v.(type) {
 	case *ssa.Const:
 		if x.Value == nil {
-			if _, ok := x.Type().Underlying().(*types.Struct); ok {
+			if isStructType(x.Type()) {
 				return "zero"
 			}
 			return "nil"
@@ -565,11 +1052,13 @@ func (t *Terms) compute(v ssa.Value) string {
 		t.fresh[n] = true
 		return n
 	case *ssa.FieldAddr:
-		return "&" + t.Term(x.X) + "." + fieldName(x.X.Type(), x.Field)
+		c, _ := t.cellOf(x)
+		return "&" + c
 	case *ssa.Field:
-		return t.Term(x.X) + "." + fieldName(x.X.Type(), x.Field)
+		return t.proj(t.Term(x.X), fieldName(x.X.Type(), x.Field))
 	case *ssa.IndexAddr:
-		return "&" + t.Term(x.X) + "[" + t.Term(x.Index) + "]"
+		c, _ := t.cellOf(x)
+		return "&" + c
 	case *ssa.Index:
 		return t.Term(x.X) + "[" + t.Term(x.Index) + "]"
 	case *ssa.Lookup:
@@ -582,7 +1071,13 @@ func (t *Terms) compute(v ssa.Value) string {
 		if x.High != nil {
 			hi = t.Term(x.High)
 		}
-		return t.Term(x.X) + "[" + lo + ":" + hi + "]"
+		base := t.Term(x.X)
+		if lo == "" && hi == "" {
+			if _, isPtr := x.X.Type().Underlying().(*types.Pointer); !isPtr {
+				return base // s[:] of a slice is the same slice
+			}
+		}
+		return base + "[" + lo + ":" + hi + "]"
 	case *ssa.MakeInterface:
 		return t.Term(x.X)
 	case *ssa.ChangeInterface:
@@ -623,11 +1118,15 @@ func (t *Terms) compute(v ssa.Value) string {
 				}
 				return fmt.Sprintf("%s+%d", a, k)
 			}
-			if _, isStr := x.Type().Underlying().(*types.Basic); isStr && x.Type().Underlying().(*types.Basic).Info()&types.IsString != 0 {
+			if bt, ok := x.Type().Underlying().(*types.Basic); ok && bt.Info()&types.IsString != 0 {
 				return "(" + a + " ++ " + b + ")"
 			}
 			if a > b {
 				a, b = b, a
+			}
+		case token.SUB:
+			if k, ok := intConst(x.Y); ok && k >= 0 {
+				return fmt.Sprintf("%s-%d", a, k)
 			}
 		case token.EQL, token.NEQ, token.MUL, token.AND, token.OR:
 			if _, isC := x.X.(*ssa.Const); isC {
@@ -643,7 +1142,6 @@ func (t *Terms) compute(v ssa.Value) string {
 		return "(" + a + " " + x.Op.String() + " " + b + ")"
 	case *ssa.UnOp:
 		if x.Op == token.MUL {
-			// load evaluated out of order (should not happen); treat as opaque
 			return t.newOpaque("load")
 		}
 		return x.Op.String() + t.Term(x.X)
@@ -664,10 +1162,13 @@ func (t *Terms) phiTerm(p *ssa.Phi) string {
 		}
 		s, ok := t.val[e]
 		if !ok {
-			if _, isC := e.(*ssa.Const); isC {
+			switch e.(type) {
+			case *ssa.Const, *ssa.Parameter, *ssa.Global, *ssa.Function:
 				s = t.Term(e)
-			} else {
+			default:
 				same = false
+			}
+			if !same {
 				break
 			}
 		}
@@ -680,60 +1181,55 @@ func (t *Terms) phiTerm(p *ssa.Phi) string {
 	if same && first != "" {
 		return first
 	}
-	name := p.Comment
-	return fmt.Sprintf("phi(b%d:%s)", p.Block().Index, name) + "#" + strconv.Itoa(idxInBlock(p))
+	return fmt.Sprintf("phi(b%d:%s)#%d", p.Block().Index, p.Comment, idxInBlock(p))
 }
 
 // MemBefore returns the memory state just before instruction `in`.
 func (t *Terms) MemBefore(in ssa.Instruction) *memState {
 	b := in.Block()
-	m := t.memIn[b]
-	if m == nil {
+	m0 := t.memIn[b]
+	if m0 == nil {
 		return newMem()
 	}
-	m = m.clone()
-	// re-simulate without disturbing recorded values
+	m := m0.clone()
 	saveVal := t.val
 	t.val = map[ssa.Value]string{}
 	for k, v := range saveVal {
 		t.val[k] = v
 	}
 	saveOp := t.opaque
+	saveLD := t.loadDef
+	t.loadDef = map[*ssa.UnOp]ssa.Instruction{}
 	for _, x := range b.Instrs {
 		if x == in {
 			break
 		}
 		switch y := x.(type) {
-		case *ssa.Store:
-			cell, cls := t.cellOf(y.Addr)
-			if cls != "" {
-				m.cellCls[cell] = cls
+		case *ssa.Store, *ssa.MapUpdate, ssa.CallInstruction:
+			_ = y
+			// keep recorded value terms stable: re-step only memory effects
+			vv, isVal := x.(ssa.Value)
+			var keep string
+			if isVal {
+				keep = saveVal[vv]
 			}
-			m.cells[cell] = memEntry{term: saveVal[y.Val], def: y}
-			if saveVal[y.Val] == "" {
-				m.cells[cell] = memEntry{term: t.Term(y.Val), def: y}
+			t.step(x, m)
+			if isVal && keep != "" {
+				t.val[vv] = keep
 			}
-		case ssa.CallInstruction:
-			if !t.isPureCall(y) {
-				t.invalidateForCall(y, m, fmt.Sprintf("c%s@%d", shortCallee(t.calleeShort(y)), t.callOrd[y]))
-			}
-		case *ssa.MapUpdate:
-			t.invalidateClass(m, "map:"+shortType(y.Map.Type()), "mu", "")
 		}
 	}
 	t.val = saveVal
 	t.opaque = saveOp
+	t.loadDef = saveLD
 	return m
 }
 
-// FieldAt returns the term of field f of the object denoted by base term, just before `at`.
+// FieldAt returns the term of field f of the object denoted by pointer term base, just
+// before `at`.
 func (t *Terms) FieldAt(at ssa.Instruction, base, field string) string {
 	m := t.MemBefore(at)
-	cell := base + "." + field
-	if e, ok := m.cells[cell]; ok {
-		return e.term
-	}
-	return t.defaultContent(cell, m)
+	return t.lookup(base+"."+field, m)
 }
 
 // FieldDefAt returns the store that defines field f of base just before `at` (nil if unknown).
@@ -743,4 +1239,21 @@ func (t *Terms) FieldDefAt(at ssa.Instruction, base, field string) ssa.Instructi
 		return e.def
 	}
 	return nil
+}
+
+var paramRe = regexp.MustCompile(`\$[A-Za-z_][A-Za-z0-9_]*`)
+
+// Canon renames parameters to their index ($0, $1, ...) so rules are insensitive to
+// parameter names.
+func (t *Terms) Canon(term string) string {
+	idx := map[string]int{}
+	for i, p := range t.fn.Params {
+		idx["$"+p.Name()] = i
+	}
+	return paramRe.ReplaceAllStringFunc(term, func(s string) string {
+		if i, ok := idx[s]; ok {
+			return "$" + strconv.Itoa(i)
+		}
+		return s
+	})
 }
